@@ -239,8 +239,12 @@ def run(ctx):
             raw = Shelxfile()
             raw.resfile = Path(main)
             raw._reslist = text.splitlines(keepends=False)
-            with contextlib.redirect_stdout(io.StringIO()):
-                raw._find_included_files()
+            try:
+                with contextlib.redirect_stdout(io.StringIO()):
+                    raw._find_included_files()
+            except Exception as ex_:
+                common.add_violation(ctx, 'reading the include files of a valid file raises', case, 'no exception', '%s: %s' % (type(ex_).__name__, ex_))
+                continue
             inc_cases.append((lines, files, list(raw._reslist), sorted(raw.delete_on_write)))
             st, inn, shx = read_path(main)
             ev += 1
